@@ -509,6 +509,8 @@ def run(ck, prog):
     c09.rule_r3(ck, prog, rule='C09.R3')
     rule_r4_view_subscripts(ck, prog)
     rule_r5_purity(ck, prog)
+    ck.doc('C09.R9', '(shared rule, see C09) block operations on the id representation cover the whole array ("non-zero ids" is decided over all bytes)', 2)
+    c09.rule_r9_id_blocks(ck, prog)
     if not c09.rule_r7(ck, prog, prefixes=('opentelemetry::trace::propagation::',)):
         ck.holds('C09.R7', prog.function('trace::propagation::B3PropagatorExtractor::Extract'), 'no-static-locals', None, 'no function-local statics in the B3 / Jaeger propagators')
     return {}
